@@ -164,9 +164,14 @@ def holdsIn (s : LState) (t : Tid) (h : Hold) : Prop :=
 def HoldsAt (tr : List Ev) (i : Nat) (t : Tid) (h : Hold) : Prop :=
   ∃ s, runL LState.init (tr.take i) = some s ∧ holdsIn s t h
 
+/-- a recorded hold is satisfied by an actual hold of the same mutex in the recorded mode — or, for a recorded
+    shared hold, by an exclusive one (a must-lockset row says `shared` when some paths hold RLock and others Lock) -/
+def HoldsAtLeast (tr : List Ev) (i : Nat) (t : Tid) (h : Hold) : Prop :=
+  HoldsAt tr i t h ∨ (h.mode = .shared ∧ HoldsAt tr i t ⟨h.m, .excl⟩)
+
 /-- every access of the execution is a row of the table and is performed while the recorded locks are held -/
 def Respects (tbl : List Access) (tr : List Ev) : Prop :=
-  ∀ i t a, tr[i]? = some (.acc t a) → a ∈ tbl ∧ ∀ h ∈ a.locks, HoldsAt tr i t h
+  ∀ i t a, tr[i]? = some (.acc t a) → a ∈ tbl ∧ ∀ h ∈ a.locks, HoldsAtLeast tr i t h
 
 /-- happens-before between positions of an execution -/
 inductive HB (tr : List Ev) : Nat → Nat → Prop where
